@@ -15,7 +15,7 @@ var Torture = []string{
 	"<?php <<<A\nx\n  A;\n", "<?php <<<A\n  x\n  A . 'y';\n", "<?php foo(<<<A\nx\nA, 1);\n", "<?php <<<A\nAB\nA;\n", "<?php <<<A\r\nx\r\nA;\r\n", "<?php <<<A\rx\rA;\r", "<?php b<<<A\nx\nA;\n", "<?php <<< A\nx\nA;\n", "<?php <<<A\n\nA;\n",
 	"#!/bin/php\n<?php echo 1;", "#!/bin/php\n", "#!/bin/php", "#!/bin/php\r\n<?php echo 1;", "#!/bin/php\nabc<?php echo 1;", "#!x\n<?= 1;",
 	"<?php 1and 2;", "<?php 1or 2;", "<?php 1xor 2;", "<?php $a=1instanceof B;", "<?php if(1)echo 1;else echo 2;", "<?php echo\"a\";", "<?php echo-1;", "<?php $a=+1;$b=-1;",
-	"<?php \"$a\\\\\\\"b\";", "<?php `a\\\\\\`b $c`;", "<?php \"$a\\\\\";", "<?php \"\\$a\";", "<?php \"\\\\$a\";", "<?php \"\\{$a}\";", "<?php \"{\\$a}\";", "<?php \"$a[0]\";", "<?php \"$a[-1]\";", "<?php \"$a[b]\";", "<?php \"$a[$b]\";", "<?php \"$a[0x1A]\";", "<?php \"$a[0b11]\";", "<?php \"$a[1_0]\";",
+	"<?php \"$a\\\\\\\"b\";", "<?php `a\\\\\\`b $c`;", "<?php \"$a\\\\\";", "<?php \"\\$a\";", "<?php \"\\\\$a\";", "<?php \"\\{$a}\";", "<?php \"{\\$a}\";", "<?php \"$a[0]\";", "<?php \"$a[-1]\";", "<?php \"$a[b]\";", "<?php \"$a[$b]\";", "<?php \"$a[0x1A]\";", "<?php \"$a[0b11]\";", "<?php \"$a[1_0]\";", "<?php \"$a[-0x1A] $b[-0b11] $c[-99999999999999999999] $d[-08] t\";", "<?php <<<A\n$a[-0x1F] $a[-1]\nA;\n",
 	"<?php \"$a->b\";", "<?php \"$a->b->c\";", "<?php \"$a->\";", "<?php \"${a}\";", "<?php \"${a[0]}\";", "<?php \"${a['x']}\";", "<?php \"${$a}\";", "<?php \"${foo()}\";", "<?php \"{$a}\";", "<?php \"{$a->b()}\";", "<?php \"{$a['x'][1]}\";", "<?php \"$\";", "<?php \"$ a\";", "<?php \"{ $a}\";", "<?php \"a{\";", "<?php \"a$\";", "<?php \"$a$b\";", "<?php \"$$a\";", "<?php \"$1\";",
 	"<?php 'a\\'b';", "<?php 'a\\\\';", "<?php 'a\nb\r\nc\rd';", "<?php \"a\nb\r\nc\rd\";", "<?php b'x'; B\"y\"; b\"$a\";", "<?php `ls $a`;", "<?php ``;", "<?php \"\";", "<?php '';",
 	"<?php /* c */ echo /** d */ 1 // e\n; # f\n", "<?php /**/ 1;", "<?php /***/ 1;", "<?php /** */ 1;", "<?php /* unterminated", "<?php // c ?> html", "<?php # c ?>\nhtml", "<?php // c\r echo 1;", "<?php // c\r\n echo 1;", "<?php //", "<?php #", "<?php /", "<?php /*",
@@ -38,6 +38,45 @@ var Torture = []string{
 	"<?php \x01 \x7f \xff\xfe ` \\ ", "<?php $\xe4\xf6 = 1; \xe4(); class \xc3\xa9 {}", "<?php @ # \n $ % ^ & * ( ) _ + = - [ ] { } | ; : , . < > / ? ~", "<?php $", "<?php $$", "<?php $1", "<?php ${", "<?php ${a", "<?php \"${", "<?php \"${a", "<?php \"{$", "<?php \"{$a", "<?php \"$a[", "<?php \"$a[0", "<?php \"$a->", "<?php '", "<?php \"", "<?php `", "<?php <<<", "<?php <<<A", "<?php <<<A\n", "<?php <<<'A", "<?php <<<'A'\n", "<?php <<<\"A\"\nx",
 	"<?php function f() { return 1 } echo 2;", "<?php echo 1; ) ; echo 2;", "<?php echo 1; ] ; echo 2;", "<?php $x = ; echo 2;", "<?php foo( ; echo 2;", "<?php class A { function } function g(){}", "<?php if ($a { echo 1; } echo 2;", "<?php foreach($a as &$k=>$v){}", "<?php foreach([1] as &$k=>$v){}", "<?php foreach($a + $b as &$k=>&$v): endforeach;", "<?php foreach(array(1) as &$k=>$v) if(1){} \x01 ;", "<?php function f(...$a = 1) {}", "<?php function f(&...$a = 1, ...$b = 2) {}", "<?php $a = 'abc;", "<?php $a = 'abc'; '", "<?php $a = 1; \"", "<?php $a = 1; `", "<?php trait T extends A implements B {}", "<?php foreach($a as &$k=>$v) if(1){} \x01 ;",
 	"<?php\necho 1;\r\necho 2;\recho 3;\n\n\r\r\n\r\n\n/* a\r\nb\rc\nd */\r'x\r\ny\rz';\r\n\"p\r\n$q\rr\";\n<<<A\r\n l1\r l2\n\r\nA;\r\n?>\r\nhtml\r\nmore\r<?php ?>\r<?php ?>\n",
+}
+
+// Insertion enumeration (part of G3): every torture snippet x every position x one inserted byte from a set
+// of lexically loaded bytes (bytes the scanner skips with a warning, quotes, escapes, line terminators, tag
+// and comment characters). The space is finite and enumerated completely.
+var insBytes = []byte{0x00, 0x01, 0x7f, 0x80, '\r', '\n', '"', '\'', '`', '\\', '$', '{', '}', '?', '<', '/', '*', ' ', '[', '-'}
+
+var insOffsets []int // insOffsets[k] = number of (position) slots before snippet k
+
+func insInit() {
+	if insOffsets != nil {
+		return
+	}
+	n := 0
+	for _, s := range Torture {
+		insOffsets = append(insOffsets, n)
+		n += len(s) + 1
+	}
+	insOffsets = append(insOffsets, n)
+}
+
+// InsCount is the size of the enumeration.
+func InsCount() int { insInit(); return insOffsets[len(Torture)] * len(insBytes) }
+
+// InsInput returns input number i of the enumeration.
+func InsInput(i int) []byte {
+	insInit()
+	b := insBytes[i%len(insBytes)]
+	slot := i / len(insBytes)
+	k := 0
+	for k+1 < len(Torture) && insOffsets[k+1] <= slot {
+		k++
+	}
+	pos := slot - insOffsets[k]
+	s := Torture[k]
+	out := make([]byte, 0, len(s)+1)
+	out = append(out, s[:pos]...)
+	out = append(out, b)
+	return append(out, s[pos:]...)
 }
 
 // fragments is the alphabet of the token soup generator: lexically loaded pieces.
